@@ -25,33 +25,33 @@ func NewVerifScannerAt(file io.ReaderAt, size, pos int64, getInt func(Object) (I
 	return &VerifScanner{s: s}
 }
 
-// VerifStreamExtent returns the position and length of the raw data of a
+// VerifHisStreamExtent returns the position and length of the raw data of a
 // stream read from a file.
-func VerifStreamExtent(x *Stream) (start, length int64) {
+func VerifHisStreamExtent(x *Stream) (start, length int64) {
 	return x.start, x.length
 }
 
-// VerifXRefEntry is the exported form of xRefEntry.
-type VerifXRefEntry struct {
+// VerifHisXRefEntry is the exported form of xRefEntry.
+type VerifHisXRefEntry struct {
 	Num        uint32
 	Pos        int64
 	Generation uint16
 	InStream   uint32
 }
 
-func verifEntries(xref map[uint32]*xRefEntry) []VerifXRefEntry {
-	out := make([]VerifXRefEntry, 0, len(xref))
+func verifEntries(xref map[uint32]*xRefEntry) []VerifHisXRefEntry {
+	out := make([]VerifHisXRefEntry, 0, len(xref))
 	for n, e := range xref {
 		if e == nil {
 			continue
 		}
-		out = append(out, VerifXRefEntry{Num: n, Pos: e.Pos, Generation: e.Generation, InStream: e.InStream.Number()})
+		out = append(out, VerifHisXRefEntry{Num: n, Pos: e.Pos, Generation: e.Generation, InStream: e.InStream.Number()})
 	}
 	sort.Slice(out, func(i, j int) bool { return out[i].Num < out[j].Num })
 	return out
 }
 
-func verifPrefill(pre []VerifXRefEntry) map[uint32]*xRefEntry {
+func verifPrefill(pre []VerifHisXRefEntry) map[uint32]*xRefEntry {
 	xref := make(map[uint32]*xRefEntry)
 	for _, e := range pre {
 		ent := &xRefEntry{Pos: e.Pos, Generation: e.Generation}
@@ -63,9 +63,9 @@ func verifPrefill(pre []VerifXRefEntry) map[uint32]*xRefEntry {
 	return xref
 }
 
-// VerifReadXRefTable runs readXRefTable on data (which starts at "xref")
+// VerifHisReadXRefTable runs readXRefTable on data (which starts at "xref")
 // with a map that already holds the entries pre.
-func VerifReadXRefTable(data []byte, pre []VerifXRefEntry) ([]VerifXRefEntry, Dict, error) {
+func VerifHisReadXRefTable(data []byte, pre []VerifHisXRefEntry) ([]VerifHisXRefEntry, Dict, error) {
 	xref := verifPrefill(pre)
 	s := newScanner(bytes.NewReader(data), nil, nil)
 	dict, err := readXRefTable(xref, s)
@@ -75,9 +75,9 @@ func VerifReadXRefTable(data []byte, pre []VerifXRefEntry) ([]VerifXRefEntry, Di
 	return verifEntries(xref), dict, nil
 }
 
-// VerifDecodeXRefStream runs checkXRefStreamDict and decodeXRefStream on the
+// VerifHisDecodeXRefStream runs checkXRefStreamDict and decodeXRefStream on the
 // decoded stream contents.
-func VerifDecodeXRefStream(dict Dict, rawLen int64, decoded []byte, pre []VerifXRefEntry) ([]VerifXRefEntry, error) {
+func VerifHisDecodeXRefStream(dict Dict, rawLen int64, decoded []byte, pre []VerifHisXRefEntry) ([]VerifHisXRefEntry, error) {
 	w, ss, err := checkXRefStreamDict(dict, rawLen)
 	if err != nil {
 		return nil, err
@@ -90,15 +90,15 @@ func VerifDecodeXRefStream(dict Dict, rawLen int64, decoded []byte, pre []VerifX
 	return verifEntries(xref), nil
 }
 
-// VerifXRef returns the cross-reference map of an open Reader.
-func VerifXRef(r *Reader) []VerifXRefEntry {
+// VerifHisXRef returns the cross-reference map of an open Reader.
+func VerifHisXRef(r *Reader) []VerifHisXRefEntry {
 	return verifEntries(r.xref)
 }
 
-// VerifReadXRef runs the first steps of NewReader (findHeaderOffset,
+// VerifHisReadXRef runs the first steps of NewReader (findHeaderOffset,
 // ReadHeaderVersion, readXRef) and returns the cross-reference map, the
 // trailer entries readXRef keeps, and the header offset.
-func VerifReadXRef(data io.ReaderAt, size int64) ([]VerifXRefEntry, Dict, int64, error) {
+func VerifHisReadXRef(data io.ReaderAt, size int64) ([]VerifHisXRefEntry, Dict, int64, error) {
 	r := &Reader{r: data, size: size, unencrypted: make(map[Reference]bool)}
 	headerOffset, err := findHeaderOffset(data, size)
 	if err != nil {
